@@ -12,7 +12,6 @@ import (
 	"regexp"
 	"runtime"
 	"strings"
-	"sync/atomic"
 	"time"
 
 	"github.com/graphql-go/graphql/language/ast"
@@ -37,7 +36,8 @@ type Case struct {
 	IllPct int    `json:"ill_pct,omitempty"`
 	// CrossArgs: cross-type fragment spreads may involve fields with arguments (known finding)
 	CrossArgs bool `json:"cross_args,omitempty"`
-	// OmitMarshalers: see gqlty.GenSchema.OmitMarshalers (known finding)
+	// OmitMarshalers: no longer used (the generator always lets batch resolvers leave out text-marshaler results
+	// since C14-fix-3 is in the tree); kept so that older replay files still load
 	OmitMarshalers bool `json:"omit_marshalers,omitempty"`
 	// Edited: the pinned query is a textual edit of another one and need not be syntactically valid
 	Edited bool `json:"edited,omitempty"`
@@ -131,7 +131,7 @@ func runCase(c *Case) ([]F, map[string]interface{}) {
 	var fs []F
 	obs := map[string]interface{}{}
 	r := vh.NewRng(c.Seed)
-	g := gqlty.NewGenSchemaOpt(r.Fork(), c.OmitMarshalers)
+	g := gqlty.NewGenSchema(r.Fork())
 	schema, err := g.Build()
 	obs["shapes"] = g.Shapes
 	if err != nil {
@@ -248,6 +248,7 @@ func runCase(c *Case) ([]F, map[string]interface{}) {
 		var val interface{}
 		var xerr error
 		ctx, cancel := context.WithTimeout(context.Background(), 5*time.Second)
+		g.ResetExcuses()
 		p := safe(func() { val, xerr = exec.Execute(ctx, schema.Query, nil, q) })
 		cancel()
 		if p != "" {
@@ -255,10 +256,12 @@ func runCase(c *Case) ([]F, map[string]interface{}) {
 			continue
 		}
 		clash := aliasClash(doc)
-		if xerr != nil && atomic.LoadInt32(&g.NonNullNil) != 0 && strings.Contains(xerr.Error(), "is marked non-nullable but returned a null value") {
-			// the one legitimate execution error: a resolver broke its own NonNullable promise
-			obs["nonnullable-nil-rejected"] = true
-			continue
+		if xerr != nil {
+			// the legitimate execution errors: a generated resolver broke its own promise during this query
+			if why := g.Excused(xerr.Error()); why != "" {
+				obs[why] = true
+				continue
+			}
 		}
 		if xerr != nil {
 			sig := "validated-query-errors"
@@ -411,7 +414,7 @@ func main() {
 			}
 		}
 		for k := range res.Obs {
-			if strings.HasPrefix(k, "ill:") || k == "cross-type-spread" || k == "nonnullable-nil-rejected" {
+			if strings.HasPrefix(k, "ill:") || k == "cross-type-spread" || k == "nonnullable-nil-rejected" || k == "enum-without-value-rejected" {
 				run.Hist(k)
 			}
 		}
